@@ -266,8 +266,9 @@ def worker(args):
 
 def run(chk):
     N = 2 if chk.tier == 'quick' else 8
-    cases = [(chk.prop, chk.tier, k, s, N) for k, s in KINDS]
-    chk.bounds = {'item kinds': [list(k) for k in KINDS], 'length': '-1..%d (symbolic)' % N,
+    # wide characters fork on every (high, low) surrogate decision: their length bound stays smaller
+    cases = [(chk.prop, chk.tier, k, s, (N if k != 'wchar' else min(N, 4))) for k, s in KINDS]
+    chk.bounds = {'item kinds': [list(k) for k in KINDS], 'length': '-1..%d (symbolic); char16_t/char32_t items: -1..%d' % (N, min(N, 4)),
                   'misalignment of source pointer': '0..7 (symbolic)', 'alignment field of the item type': 'natural alignment for primitives (= size), any value for pointer/struct items',
                   'item bytes': 'all values'}
     chk.outside = ['lengths above the bound (loop body depends on i only through src += itemsize)',
